@@ -145,3 +145,22 @@ def top_level_index(stmts, pred):
 
 def contains(node, pred):
     return any(pred(n) for n in ast.walk(node))
+
+
+def share(check, repo, fn, new_rule, title=None, keep=None, args=()):
+    """Run rule function `fn` of another property under this property's rule id.  `keep(finding)` restricts the findings to the
+    part that is also a necessary condition of this property; an AnalysisError is deferred like for run_rule."""
+    from sa.model import AnalysisError
+
+    def wrapped(repo_):
+        rr = fn(repo_, *args)
+        rr.rule = new_rule
+        if title:
+            rr.title = title
+        if keep is not None:
+            rr.findings = [f for f in rr.findings if keep(f)]
+        for f in rr.findings:
+            f.rule = new_rule
+        return rr
+    wrapped.__name__ = getattr(fn, '__name__', 'shared') + '->' + new_rule
+    check.run_rule(wrapped, repo)
